@@ -56,6 +56,39 @@ class FakeEmpty(Exception):
     pass
 
 
+class Runaway(BaseException):
+    """a scenario does not come to an end: a call into the stack never returns (endless loop inside a handler), or the
+    stacks produce events without bound (e.g. a frame ping-pong).  Raised by the watchdog, turned into a `hang` event
+    by the scenario runner - the trace is judged like any other (a stack that can be made to loop is a finding)."""
+
+
+MAX_EVENTS = int(os.environ.get("VERIF_MAX_EVENTS", "150000"))      # per scenario (the largest regular ones have ~10^4)
+CPU_BUDGET_S = float(os.environ.get("VERIF_SCENARIO_CPU_S", "30"))  # CPU seconds of this process per scenario (regular: < 3)
+HANGS = [0]                                                         # scenarios stopped by the watchdog in this process
+
+
+def _on_vtalrm(signum, frame):
+    HANGS[0] += 1
+    raise Runaway("CPU budget of the scenario used up")
+
+
+class watchdog:
+    """with watchdog(): ... - a CPU-time (not wall-clock: immune to a loaded machine) budget for one scenario"""
+
+    def __enter__(self):
+        import signal
+        self._old = signal.signal(signal.SIGVTALRM, _on_vtalrm)
+        # once two scenarios have hung, the following ones get a short budget (a broken stack hangs in many scenarios)
+        signal.setitimer(signal.ITIMER_VIRTUAL, CPU_BUDGET_S if HANGS[0] < 2 else max(4.0, CPU_BUDGET_S / 8))
+        return self
+
+    def __exit__(self, *a):
+        import signal
+        signal.setitimer(signal.ITIMER_VIRTUAL, 0)
+        signal.signal(signal.SIGVTALRM, self._old)
+        return False
+
+
 CUR = [None]      # the active simulation
 
 
@@ -298,6 +331,7 @@ class Sim:
         self.t_end = 1 << 62
         self.rng = random.Random(seed)
         self.depth = 0              # handler nesting depth
+        self.runaway = False
         self.projector = None       # fn(node) -> dict, logged as "abs" after top-level steps
         self.dirty = []
         self.log_tokens = log_tokens
@@ -311,7 +345,16 @@ class Sim:
         ev["t"] = self.now_us - EPOCH_US
         ev["i"] = len(self.trace)
         self.trace.append(ev)
+        if len(self.trace) > MAX_EVENTS and not self.runaway:
+            self.runaway = True
+            raise Runaway("more than %d events" % MAX_EVENTS)
         return ev
+
+    def hang(self, why):
+        """called by the scenario runner when the watchdog fired"""
+        self.runaway = True
+        self.trace.append({"ev": "hang", "node": self.nodes[0].name if self.nodes else "A", "why": str(why)[:120],
+                           "t": self.now_us - EPOCH_US, "i": len(self.trace)})
 
     def touch(self, node):
         if self.projector is not None and node not in self.dirty:
@@ -571,7 +614,7 @@ class Sim:
         except Spin:
             raise
         except BaseException as e:
-            if isinstance(e, _Yield):
+            if isinstance(e, (_Yield, Runaway)):
                 raise
             ev["exc"] = type(e).__name__
             ev["msg"] = str(e)
